@@ -361,7 +361,7 @@ inline size_t minimalPayloadSize(const std::string& type, size_t vi) {
 // blocks 1..k = subjects (fed from the tape, in order), blocks k+1.. = minimal target
 // blocks. Subject i may reference subjects j > i and the targets, so the reference
 // graph is acyclic by construction and every block is reachable from the root.
-inline SynthFile synthMultiFile(const std::vector<std::string>& types, size_t vi, Tape& tape) {
+inline SynthFile synthMultiFile(const std::vector<std::string>& types, size_t vi, Tape& tape, bool wantTrace = false) {
 	static const char* targetTypes[] = {"NiNode", "NiStringExtraData", "BSShaderTextureSet", "NiTriShapeData",
 										"NiAlphaProperty"};
 	const VersionCfg& v = versions()[vi];
@@ -388,6 +388,7 @@ inline SynthFile synthMultiFile(const std::vector<std::string>& types, size_t vi
 			plan.refTargets.push_back(j);
 		for (uint32_t j = 0; j < nTargets; j++)
 			plan.refTargets.push_back(k + 1 + j);
+		plan.wantTrace = wantTrace;
 		SynthResult r = synthBlock(types[i], v, tape, plan);
 		if (!r.ok) {
 			out.aborted = r.aborted;
@@ -413,8 +414,8 @@ inline SynthFile synthMultiFile(const std::vector<std::string>& types, size_t vi
 }
 
 // Single-subject file: root, subject at index 1, five targets at 2..6
-inline SynthFile synthSingleFile(const std::string& type, size_t vi, Tape& tape) {
-	return synthMultiFile({type}, vi, tape);
+inline SynthFile synthSingleFile(const std::string& type, size_t vi, Tape& tape, bool wantTrace = false) {
+	return synthMultiFile({type}, vi, tape, wantTrace);
 }
 
 } // namespace vf
